@@ -505,15 +505,14 @@ def decode_part(ctx: vlib.Ctx, mod, mem: Members):
                 ctx.sample({"op": "decode", "type": expr, "entry": entry, "input": dx, "observed": show(observed)})
     # correspondence
     corr(ctx, "union-decode-model-vs-impl", ucases, uinfo, "ucase",
-         ["ucase_ok", "ucase_ok_model", "ucase_ok_ref", "ucase_ok_cls",
-          "fun c => negb (negb (ucase_ok_model c) && ouv_eqb (uc_obs c) (uc_ref c) && negb (devclass_eqb (ucase_cls c) Agree))"])
+         ["ucase_ok", "ucase_ok_model", "ucase_ok_ref", "ucase_ok_cls"], stale_fun="ucase_stale")
     corr(ctx, "optional-decode-model-vs-impl", ocases, oinfo, "ocase", ["ocase_ok"])
 
 
-def corr(ctx, name, cases, info, ctype, funs):
-    """funs[0] = overall verdict; the others only explain a failure; a last function of the form
-    `negb (stale ...)` marks cases where the implementation now agrees with the reference while the
-    (faithful, defect-containing) model deviates in a listed way: reported as model-stale, not as a violation."""
+def corr(ctx, name, cases, info, ctype, funs, stale_fun=None):
+    """funs[0] = overall verdict, the others only explain a failure.  stale_fun marks cases where the
+    implementation agrees with the reference while the (faithful, defect-containing) model deviates in a
+    listed way: a repaired finding; reported as model-stale, not as a violation."""
     if not cases:
         ctx.correspondence(name, 0, 0, "no cases")
         return
@@ -522,20 +521,21 @@ def corr(ctx, name, cases, info, ctype, funs):
         idx = sorted(ctx.rng.sample(range(len(cases)), cap))
         cases = [cases[i] for i in idx]
         info = [info[i] for i in idx]
-    bads, log = coq_verdicts("c11_" + name.split("-model")[0].replace("-", "_"), cases, ctype, funs,
+    allf = list(funs) + ([f"fun c => negb ({stale_fun} c)"] if stale_fun else [])
+    bads, log = coq_verdicts("c11_" + name.split("-model")[0].replace("-", "_"), cases, ctype, allf,
                              jobs=4 if ctx.quick() else 10)
     if bads is None:
         ctx.correspondence(name, len(cases), -1, log)
         ctx.not_shown("correspondence " + name, log)
         return
     bad = bads[0]
-    stale = set(bads[-1]) if len(funs) > 2 else set()
+    stale = set(bads[-1]) if stale_fun else set()
     real_bad = [i for i in bad if i not in stale]
     detail = ""
     if bad:
         parts = []
-        for i in bad[:8]:
-            why = [funs[k] for k in range(1, len(funs) - (1 if len(funs) > 2 else 0)) if i in bads[k]]
+        for i in (real_bad + sorted(stale))[:8]:
+            why = [funs[k] for k in range(1, len(funs)) if i in bads[k]]
             parts.append(f"{info[i]} failing={why}{' model-stale' if i in stale else ''}")
         detail = "; ".join(parts)
     ctx.correspondence(name, len(cases), len(real_bad), detail)
@@ -618,12 +618,12 @@ def encode_part(ctx: vlib.Ctx, mod, mem: Members):
                     if fires:
                         accepts_out.append(r)
                 disj = all(same(a, b) for a in accepts_out for b in accepts_out)
-                pcases.append(f"PC [{'; '.join(cms)}] {to_uv(v)} {to_ouv(observed)} {'true' if disj else 'false'}")
+                pcases.append(f"PC [{'; '.join(cms)}] {to_uv(v)} {to_ouv(observed)} {to_ouv(expected)} {'true' if disj else 'false'}")
                 pinfo.append((expr, entry, vx, show(observed), show(expected), cls, disj))
                 if disj and cls != "agree":
                     # the theorem's hypothesis holds and the real code still deviates
                     ctx.not_shown("C11_union_encode_partial hypothesis holds but implementation deviates", str(pinfo[-1]))
-    corr(ctx, "union-encode-model-vs-impl", pcases, pinfo, "pcase", ["pcase_ok", "pcase_ok_model", "pcase_ok_disj"])
+    corr(ctx, "union-encode-model-vs-impl", pcases, pinfo, "pcase", ["pcase_ok", "pcase_ok_model", "pcase_ok_disj"], stale_fun="pcase_stale")
 
 
 def lit_coq(l) -> str:
@@ -710,7 +710,7 @@ def literal_part(ctx: vlib.Ctx, mod, mem: Members):
                 ctx.fail(f"Literal encode {expr} via {entry} <- {l!r}: got {show(observed)}, expected {show(expected)}",
                          dict(site.replay_base(), op="encode", input=repr(l) if not isinstance(l, _enum.Enum) else f"{type(l).__name__}.{l.name}",
                               observed=show(observed), expected=show(expected)), {"kind": kind, "op": "literal-encode"})
-    corr(ctx, "literal-decode-model-vs-impl", lcases, linfo, "lcase", ["lcase_ok", "lcase_ok_model", "lcase_ok_ref", "lcase_ok_homog"])
+    corr(ctx, "literal-decode-model-vs-impl", lcases, linfo, "lcase", ["lcase_ok", "lcase_ok_model", "lcase_ok_ref", "lcase_ok_homog"], stale_fun="lcase_stale")
 
 
 THEOREMS = [
